@@ -44,6 +44,9 @@ def decorate(rng, p):
         part["extra_items"] = rng.sample(extras, rng.choice([1, 2, 3]))
         if part["id"] == "c":
             part["extra_items_first"] = rng.sample(extras, rng.choice([0, 1]))
+        if rng.random() < 0.4:
+            # inner attributes of the impl block / trait are part of the item
+            part["inner_attrs"] = rng.sample(["#![allow(dead_code)]", "#![doc = \" inner docs\"]", "#![allow(clippy::all)]", "//! inner doc comment"], rng.choice([1, 2]))
         for h in part["handlers"]:
             if h["kind"] == "reply":
                 continue
@@ -54,6 +57,8 @@ def decorate(rng, p):
                 h["sv_attrs_above"] = rng.choice([0, 0, 1, 2])
             if part["id"] == "c" and rng.random() < 0.4:
                 h["body_prefix"] = rng.sample(BODY_ITEMS, rng.choice([1, 2]))
+                if rng.random() < 0.5:
+                    h["body_prefix"].insert(0, rng.choice(["#![allow(unused_variables)]", "#![allow(unused)]", "#![doc = \" body docs\"]"]))
             for a in h["args"]:
                 if rng.random() < 0.3:
                     a["attrs"] = rng.sample(PARAM_ATTRS, rng.choice([1, 2]))
